@@ -55,86 +55,52 @@ theorem lastPub_append_self (u : Uri) (acc : List Publish) (v : Version) (t : Te
 theorem lastPub_nil (u : Uri) : lastPub u [] = none := rfl
 
 /-- every publish emitted by a step is for the uri of the notification -/
-theorem step_pubs_uri (cfg : Config) (s s' : State) (op : Op) (ps : List Publish)
-    (h : step cfg s op = .ok (s', ps)) : ∀ p ∈ ps, p.uri = op.uri := by
+theorem step_pubs_uri (cfg : Config) (s : State) (op : Op) :
+    ∀ p ∈ (step cfg s op).2, p.uri = op.uri := by
   cases op with
   | «open» u v t =>
-    simp only [step, onOpen, Except.ok.injEq] at h
-    split at h
-    · cases h; simp
-    · split at h
-      · cases h; simp
-      · cases h; simp [Op.uri]
+    simp only [step, onOpen]
+    split
+    · simp
+    · split <;> simp [Op.uri]
   | change u v ts =>
-    simp only [step, onChange] at h
-    split at h
-    · cases h
-    · split at h
-      · cases h; simp
-      · split at h
-        · cases h; simp
-        · split at h
-          · cases h; simp
-          · cases h; simp [Op.uri]
-  | close u =>
-    simp only [step, onClose, Except.ok.injEq] at h
-    cases h; simp
+    simp only [step, onChange]
+    split
+    · simp
+    · split
+      · simp
+      · split
+        · simp
+        · split <;> simp [Op.uri]
+  | close u => simp [step, onClose]
 
 /-- a notification for another uri does not touch `u`'s entry -/
-theorem step_lookup_other (cfg : Config) (s s' : State) (op : Op) (ps : List Publish) (u : Uri)
-    (hne : op.uri ≠ u) (h : step cfg s op = .ok (s', ps)) : lookup s' u = lookup s u := by
+theorem step_lookup_other (cfg : Config) (s : State) (op : Op) (u : Uri) (hne : op.uri ≠ u) :
+    lookup (step cfg s op).1 u = lookup s u := by
   cases op with
   | «open» u' v t =>
     simp only [Op.uri] at hne
-    simp only [step, onOpen, Except.ok.injEq] at h
-    split at h
-    · cases h; rfl
-    · split at h
-      · cases h; rfl
-      · cases h; exact lookup_insert_other s u u' v t hne
+    simp only [step, onOpen]
+    split
+    · rfl
+    · split
+      · rfl
+      · exact lookup_insert_other s u u' v t hne
   | change u' v ts =>
     simp only [Op.uri] at hne
-    simp only [step, onChange] at h
-    split at h
-    · cases h
-    · split at h
-      · cases h; rfl
-      · split at h
-        · cases h; rfl
-        · split at h
-          · cases h; rfl
-          · cases h; exact lookup_insert_other s u u' v _ hne
+    simp only [step, onChange]
+    split
+    · rfl
+    · split
+      · rfl
+      · split
+        · rfl
+        · split
+          · rfl
+          · exact lookup_insert_other s u u' v _ hne
   | close u' =>
     simp only [Op.uri] at hne
-    simp only [step, onClose, Except.ok.injEq] at h
-    cases h; exact lookup_remove_other s u u' hne
-
-/-- no `didChange` with an empty `contentChanges` array -/
-def NoEmptyChange (h : List Op) : Prop := ∀ u v, Op.change u v [] ∉ h
-
-theorem NoEmptyChange.tail {op : Op} {ops : List Op} (h : NoEmptyChange (op :: ops)) :
-    NoEmptyChange ops := fun u v hm => h u v (List.mem_cons_of_mem _ hm)
-
-theorem step_ok_of_nonempty (cfg : Config) (s : State) (op : Op) (h : ∀ u v, op ≠ Op.change u v []) :
-    ∃ s' ps, step cfg s op = .ok (s', ps) := by
-  cases op with
-  | «open» u v t => exact ⟨_, _, rfl⟩
-  | close u => exact ⟨_, _, rfl⟩
-  | change u v ts =>
-    cases ts with
-    | nil => exact absurd rfl (h u v)
-    | cons t ts' =>
-      simp only [step, onChange]
-      split
-      · exact ⟨_, _, rfl⟩
-      · split
-        · exact ⟨_, _, rfl⟩
-        · split
-          · exact ⟨_, _, rfl⟩
-          · exact ⟨_, _, rfl⟩
-
-/-- the text the server reads from a `didChange`: element 0 -/
-def headText (ts : List Text) : Text := ts.headD []
+    exact lookup_remove_other s u u' hne
 
 /-! ## Invariants over a history -/
 
@@ -142,20 +108,16 @@ def headText (ts : List Text) : Text := ts.headD []
 stays out of the map -/
 theorem closed_inv (cfg : Config) (u : Uri) :
     ∀ (post : List Op) (s : State) (acc : List Publish),
-      lookup s u = none → (∀ op ∈ post, isOpenOf u op = false) → NoEmptyChange post →
+      lookup s u = none → (∀ op ∈ post, isOpenOf u op = false) →
       lastPub u (runFrom cfg s acc post).pubs = lastPub u acc ∧
-      (runFrom cfg s acc post).crashed = false ∧
       lookup (runFrom cfg s acc post).state u = none
-  | [], s, acc, hl, _, _ => ⟨rfl, rfl, hl⟩
-  | op :: ops, s, acc, hl, hno, hne => by
+  | [], s, acc, hl, _ => ⟨rfl, hl⟩
+  | op :: ops, s, acc, hl, hno => by
     have hno' : ∀ op' ∈ ops, isOpenOf u op' = false := fun o h => hno o (List.mem_cons_of_mem _ h)
-    have hne' := hne.tail
-    have hop : ∀ u' v', op ≠ Op.change u' v' [] := fun u' v' e => hne u' v' (by simp [e])
-    obtain ⟨s', ps, hstep⟩ := step_ok_of_nonempty cfg s op hop
-    simp only [runFrom, hstep]
+    simp only [runFrom]
     by_cases hu : op.uri = u
     · -- a change or close of `u` while `u` is not stored: nothing happens
-      have hs : lookup s' u = none ∧ ps = [] := by
+      have hs : lookup (step cfg s op).1 u = none ∧ (step cfg s op).2 = [] := by
         cases op with
         | «open» u' v t =>
           have := hno (Op.open u' v t) (by simp)
@@ -163,26 +125,19 @@ theorem closed_inv (cfg : Config) (u : Uri) :
           exact absurd hu this
         | change u' v ts =>
           simp only [Op.uri] at hu; subst hu
-          simp only [step, onChange] at hstep
-          split at hstep
-          · cases hstep
-          · split at hstep
-            · cases hstep; exact ⟨hl, rfl⟩
-            · simp only [hl] at hstep
-              cases hstep; exact ⟨hl, rfl⟩
+          cases hts : ts.getLast? <;> by_cases hk : cfg.langKnown u' = true <;>
+            simp [step, onChange, hts, hk, hl]
         | close u' =>
           simp only [Op.uri] at hu; subst hu
-          simp only [step, onClose, Except.ok.injEq] at hstep
-          cases hstep
           exact ⟨lookup_remove_self s u', rfl⟩
-      obtain ⟨hl', rfl⟩ := hs
-      simpa using closed_inv cfg u ops s' acc hl' hno' hne'
-    · have hl' : lookup s' u = none := by
-        rw [step_lookup_other cfg s s' op ps u hu hstep]; exact hl
-      have hp : ∀ p ∈ ps, p.uri ≠ u := fun p hp => by
-        rw [step_pubs_uri cfg s s' op ps hstep p hp]; exact hu
-      have ih := closed_inv cfg u ops s' (acc ++ ps) hl' hno' hne'
-      rw [lastPub_append_other u acc ps hp] at ih
+      rw [hs.2, List.append_nil]
+      exact closed_inv cfg u ops _ acc hs.1 hno'
+    · have hl' : lookup (step cfg s op).1 u = none := by
+        rw [step_lookup_other cfg s op u hu]; exact hl
+      have hp : ∀ p ∈ (step cfg s op).2, p.uri ≠ u := fun p hp => by
+        rw [step_pubs_uri cfg s op p hp]; exact hu
+      have ih := closed_inv cfg u ops _ (acc ++ (step cfg s op).2) hl' hno'
+      rw [lastPub_append_other u acc _ hp] at ih
       exact ih
 
 theorem isLatestMax_snoc_stale {S : List (Version × Text)} {m : Version × Text}
@@ -252,19 +207,15 @@ theorem session_inv (cfg : Config) (u : Uri) (hlang : cfg.langKnown u = true) :
     ∀ (post : List Op) (s : State) (acc : List Publish) (S0 : List (Version × Text))
       (m : Version × Text),
       lookup s u = some m → lastPub u acc = some m → IsLatestMax S0 m →
-      (∀ op ∈ post, isOpenOf u op = false) → NoEmptyChange post →
+      (∀ op ∈ post, isOpenOf u op = false) →
       ∃ m', lastPub u (runFrom cfg s acc post).pubs = some m' ∧
-        IsLatestMax (S0 ++ changesUntilClose headText u post) m' ∧
-        (runFrom cfg s acc post).crashed = false ∧
+        IsLatestMax (S0 ++ changesUntilClose u post) m' ∧
         lookup (runFrom cfg s acc post).state u = (if closedIn u post then none else some m')
-  | [], s, acc, S0, m, hl, hp, hmax, _, _ => by
-    exact ⟨m, hp, by simpa [changesUntilClose] using hmax, rfl, by simpa [closedIn, runFrom] using hl⟩
-  | op :: ops, s, acc, S0, m, hl, hp, hmax, hno, hne => by
+  | [], s, acc, S0, m, hl, hp, hmax, _ => by
+    exact ⟨m, hp, by simpa [changesUntilClose] using hmax, by simpa [closedIn, runFrom] using hl⟩
+  | op :: ops, s, acc, S0, m, hl, hp, hmax, hno => by
     have hno' : ∀ op' ∈ ops, isOpenOf u op' = false := fun o h => hno o (List.mem_cons_of_mem _ h)
-    have hne' := hne.tail
-    have hop : ∀ u' v', op ≠ Op.change u' v' [] := fun u' v' e => hne u' v' (by simp [e])
-    obtain ⟨s', ps, hstep⟩ := step_ok_of_nonempty cfg s op hop
-    simp only [runFrom, hstep]
+    simp only [runFrom]
     by_cases hu : op.uri = u
     · cases op with
       | «open» u' v t =>
@@ -273,49 +224,56 @@ theorem session_inv (cfg : Config) (u : Uri) (hlang : cfg.langKnown u = true) :
         exact absurd hu this
       | close u' =>
         simp only [Op.uri] at hu; subst hu
-        simp only [step, onClose, Except.ok.injEq] at hstep
-        cases hstep
-        simp only [List.append_nil]
-        have hcl := closed_inv cfg u' ops (remove s u') acc (lookup_remove_self s u') hno' hne'
-        refine ⟨m, ?_, ?_, hcl.2.1, ?_⟩
+        simp only [step, onClose, List.append_nil]
+        have hcl := closed_inv cfg u' ops (remove s u') acc (lookup_remove_self s u') hno'
+        refine ⟨m, ?_, ?_, ?_⟩
         · rw [hcl.1]; exact hp
         · simpa [changesUntilClose] using hmax
-        · simp [closedIn, isCloseOf, hcl.2.2]
+        · simp [closedIn, isCloseOf, hcl.2]
       | change u' v ts =>
         simp only [Op.uri] at hu; subst hu
-        cases ts with
-        | nil => exact absurd rfl (hop u' v)
-        | cons t ts' =>
+        have hclosed : closedIn u' (Op.change u' v ts :: ops) = closedIn u' ops := by
+          simp [closedIn, isCloseOf]
+        rw [hclosed]
+        cases hts : ts.getLast? with
+        | none =>
+          -- no content change: ignored
+          have hstep : step cfg s (Op.change u' v ts) = (s, []) := by
+            simp [step, onChange, hts]
+          have hcuc : changesUntilClose u' (Op.change u' v ts :: ops) = changesUntilClose u' ops := by
+            simp [changesUntilClose, changeText, hts]
+          rw [hstep, hcuc]
+          simpa using session_inv cfg u' hlang ops s acc S0 m hl hp hmax hno'
+        | some t =>
           obtain ⟨w, x⟩ := m
-          simp only [step, onChange, hlang, hl, Bool.not_true, Bool.false_eq_true, ↓reduceIte] at hstep
-          have hcuc : changesUntilClose headText u' (Op.change u' v (t :: ts') :: ops)
-              = (v, t) :: changesUntilClose headText u' ops := by
-            simp [changesUntilClose, headText]
-          have hclosed : closedIn u' (Op.change u' v (t :: ts') :: ops) = closedIn u' ops := by
-            simp [closedIn, isCloseOf]
-          rw [hcuc, hclosed]
-          have happ : S0 ++ (v, t) :: changesUntilClose headText u' ops
-              = (S0 ++ [(v, t)]) ++ changesUntilClose headText u' ops := by simp
+          have hcuc : changesUntilClose u' (Op.change u' v ts :: ops)
+              = (v, t) :: changesUntilClose u' ops := by
+            simp [changesUntilClose, changeText, hts]
+          rw [hcuc]
+          have happ : S0 ++ (v, t) :: changesUntilClose u' ops
+              = (S0 ++ [(v, t)]) ++ changesUntilClose u' ops := by simp
           rw [happ]
           by_cases hst : w > v
           · -- stale: ignored
-            simp only [hst, ↓reduceIte, Except.ok.injEq, Prod.mk.injEq] at hstep
-            obtain ⟨rfl, rfl⟩ := hstep
+            have hstep : step cfg s (Op.change u' v ts) = (s, []) := by
+              simp [step, onChange, hts, hlang, hl, hst]
+            rw [hstep]
             have hmax' := isLatestMax_snoc_stale hmax (v, t) (by simpa using hst)
-            simpa using session_inv cfg u' hlang ops s acc (S0 ++ [(v, t)]) (w, x) hl hp hmax' hno' hne'
-          · simp only [hst, ↓reduceIte, Except.ok.injEq, Prod.mk.injEq] at hstep
-            obtain ⟨rfl, rfl⟩ := hstep
+            simpa using session_inv cfg u' hlang ops s acc (S0 ++ [(v, t)]) (w, x) hl hp hmax' hno'
+          · have hstep : step cfg s (Op.change u' v ts) = (insert s u' v t, [⟨u', v, t⟩]) := by
+              simp [step, onChange, hts, hlang, hl, hst]
+            rw [hstep]
             have hmax' := isLatestMax_snoc_new hmax (v, t) (Int.not_lt.mp hst)
             exact session_inv cfg u' hlang ops (insert s u' v t) (acc ++ [⟨u', v, t⟩]) (S0 ++ [(v, t)])
-              (v, t) (lookup_insert_self s u' v t) (lastPub_append_self u' acc v t) hmax' hno' hne'
-    · have hl' : lookup s' u = some m := by
-        rw [step_lookup_other cfg s s' op ps u hu hstep]; exact hl
-      have hpu : ∀ p ∈ ps, p.uri ≠ u := fun p hp => by
-        rw [step_pubs_uri cfg s s' op ps hstep p hp]; exact hu
-      have hp' : lastPub u (acc ++ ps) = some m := by
-        rw [lastPub_append_other u acc ps hpu]; exact hp
-      have ih := session_inv cfg u hlang ops s' (acc ++ ps) S0 m hl' hp' hmax hno' hne'
-      have hcuc : changesUntilClose headText u (op :: ops) = changesUntilClose headText u ops := by
+              (v, t) (lookup_insert_self s u' v t) (lastPub_append_self u' acc v t) hmax' hno'
+    · have hl' : lookup (step cfg s op).1 u = some m := by
+        rw [step_lookup_other cfg s op u hu]; exact hl
+      have hpu : ∀ p ∈ (step cfg s op).2, p.uri ≠ u := fun p hp => by
+        rw [step_pubs_uri cfg s op p hp]; exact hu
+      have hp' : lastPub u (acc ++ (step cfg s op).2) = some m := by
+        rw [lastPub_append_other u acc _ hpu]; exact hp
+      have ih := session_inv cfg u hlang ops _ (acc ++ (step cfg s op).2) S0 m hl' hp' hmax hno'
+      have hcuc : changesUntilClose u (op :: ops) = changesUntilClose u ops := by
         cases op with
         | «open» u' v t => simp [changesUntilClose]
         | change u' v ts => simp only [Op.uri] at hu; simp [changesUntilClose, hu]
@@ -331,32 +289,11 @@ theorem session_inv (cfg : Config) (u : Uri) (hlang : cfg.langKnown u = true) :
 /-! ## Splitting a run -/
 
 theorem runFrom_append (cfg : Config) : ∀ (a b : List Op) (s : State) (acc : List Publish),
-    (runFrom cfg s acc a).crashed = false →
     runFrom cfg s acc (a ++ b)
       = runFrom cfg (runFrom cfg s acc a).state (runFrom cfg s acc a).pubs b
-  | [], b, s, acc, _ => rfl
-  | op :: ops, b, s, acc, h => by
-    simp only [List.cons_append, runFrom] at h ⊢
-    cases hs : step cfg s op with
-    | error e => simp [hs] at h
-    | ok r =>
-      obtain ⟨s', ps⟩ := r
-      simp only [hs] at h ⊢
-      exact runFrom_append cfg ops b s' (acc ++ ps) h
-
-theorem runFrom_not_crashed (cfg : Config) : ∀ (a : List Op) (s : State) (acc : List Publish),
-    NoEmptyChange a → (runFrom cfg s acc a).crashed = false
-  | [], _, _, _ => rfl
-  | op :: ops, s, acc, hne => by
-    have hop : ∀ u' v', op ≠ Op.change u' v' [] := fun u' v' e => hne u' v' (by simp [e])
-    obtain ⟨s', ps, hstep⟩ := step_ok_of_nonempty cfg s op hop
-    simp only [runFrom, hstep]
-    exact runFrom_not_crashed cfg ops s' (acc ++ ps) hne.tail
-
-theorem NoEmptyChange.append_left {a b : List Op} (h : NoEmptyChange (a ++ b)) : NoEmptyChange a :=
-  fun u v hm => h u v (List.mem_append_left _ hm)
-
-theorem NoEmptyChange.append_right {a b : List Op} (h : NoEmptyChange (a ++ b)) : NoEmptyChange b :=
-  fun u v hm => h u v (List.mem_append_right _ hm)
+  | [], b, s, acc => rfl
+  | op :: ops, b, s, acc => by
+    simp only [List.cons_append, runFrom]
+    exact runFrom_append cfg ops b _ _
 
 end AGV.Lsp
